@@ -263,7 +263,7 @@ func (fr *Frame) scanContract(w *writeSet, fc *FuncContract, sig *types.Signatur
 	}()
 	for _, t := range fr.resolveTargets(sc, fc.Modifies) {
 		switch {
-		case t.all:
+		case t.all, t.pkgHeaps != "", t.heapName != "":
 			w.all = true
 		case t.isField:
 			for k, hn := range t.heaps {
